@@ -25,7 +25,7 @@ class HarnessError(Exception):
     """The harness/engine itself is wrong (never reported as a property violation)."""
 
 
-class Concretized(TypeError):
+class Concretized(TypeError, ValueError):
     """A symbolic value was forced to a concrete float by library code (engine limitation)."""
 
 
@@ -56,6 +56,10 @@ class Ctx:
         self.assumptions = []  # human-readable
         self._pcache = {}
         self.known_pos = set()
+        self.known_pos_polys = []
+        self.pos_gens = set()
+        self.nonneg_gens = set()
+        self._possign_cache = {}
         self.one = self.K(1)
         self.zero = self.K(0)
 
@@ -128,12 +132,148 @@ def poly_to_z3(p):
     return r
 
 
+
+def poly_sign(p):
+    """+1 / -1 if the polynomial p is syntactically known to be strictly positive / negative under the harness's
+    declared symbol ranges and registered positive expressions; None otherwise.  Sound, incomplete."""
+    c = CTX._possign_cache.get(p)
+    if c is not None:
+        return c[0]
+    r = _poly_sign(p)
+    CTX._possign_cache[p] = (r,)
+    return r
+
+
+def _poly_sign(p):
+    if p.is_ground:
+        if p.is_zero:
+            return None
+        return 1 if p.coeff(1) > 0 else -1
+    syms = [str(g) for g in p.ring.symbols]
+    for sgn in (1, -1):
+        ok = True
+        strict = False
+        for mon, coeff in p.terms():
+            if coeff * sgn < 0:
+                ok = False
+                break
+            allpos = True
+            for sname, e in zip(syms, mon):
+                if e:
+                    if sname in CTX.pos_gens:
+                        continue
+                    if sname in CTX.nonneg_gens or e % 2 == 0:
+                        allpos = False
+                        continue
+                    ok = False
+                    break
+            if not ok:
+                break
+            if allpos:
+                strict = True
+        if ok and strict:
+            return sgn
+    # divisible by registered positive polynomials down to a constant?
+    q = p
+    sign = 1
+    changed = True
+    while changed and not q.is_ground:
+        changed = False
+        for kp in CTX.known_pos_polys:
+            if kp.is_ground:
+                continue
+            try:
+                quo, rem = q.div(kp)
+            except Exception:  # noqa
+                continue
+            if rem.is_zero:
+                q = quo
+                changed = True
+                break
+    if q.is_ground and not q.is_zero:
+        return sign * (1 if q.coeff(1) > 0 else -1)
+    if q is not p:
+        r = _poly_sign_coeffs_only(q)
+        if r is not None:
+            return r
+    return None
+
+
+def _poly_sign_coeffs_only(p):
+    syms = [str(g) for g in p.ring.symbols]
+    for sgn in (1, -1):
+        ok, strict = True, False
+        for mon, coeff in p.terms():
+            if coeff * sgn < 0:
+                ok = False
+                break
+            allpos = True
+            for sname, e in zip(syms, mon):
+                if e and sname not in CTX.pos_gens:
+                    allpos = False
+                    if not (sname in CTX.nonneg_gens or e % 2 == 0):
+                        ok = False
+                        break
+            if not ok:
+                break
+            strict = strict or allpos
+        if ok and strict:
+            return sgn
+    return None
+
+
+def register_pos(x):
+    """x (SymReal) is assumed/known strictly positive on every path of this scenario."""
+    x.pos = True
+    CTX.known_pos.add(x.q)
+    n, d = x.q.numer, x.q.denom
+    if d.is_ground and not n.is_ground:
+        if d.coeff(1) < 0:
+            n = -n
+        if n not in CTX.known_pos_polys:
+            CTX.known_pos_polys.append(n)
+            CTX._possign_cache.clear()
+
+
+def cmp_zero(d, op):
+    """z3 Bool (or Python bool) for  d op 0  where d is a field element; uses the numerator only when the
+    denominator's sign is known (keeps divisions out of the solver and makes path conditions and obligations
+    share the same polynomial atoms)."""
+    import operator
+    ops = {"lt": operator.lt, "le": operator.le, "gt": operator.gt, "ge": operator.ge, "eq": operator.eq}
+    flip = {"lt": "gt", "le": "ge", "gt": "lt", "ge": "le", "eq": "eq"}
+    if d == 0:
+        return op in ("le", "ge", "eq")
+    num, den = d.numer, d.denom
+    if num.is_ground and den.is_ground:
+        v = Fraction(int(num.coeff(1).numerator), int(num.coeff(1).denominator)) / Fraction(int(den.coeff(1).numerator), int(den.coeff(1).denominator))
+        return ops[op](v, 0)
+    sd = poly_sign(den)
+    if sd is None:
+        if op == "eq":
+            return poly_to_z3(num) == 0
+        e = poly_to_z3(num) / poly_to_z3(den)
+        return ops[op](e, 0)
+    if sd < 0:
+        op = flip[op]
+    sn = poly_sign(num)
+    if sn is not None:
+        return ops[op](sn, 0)
+    # normalise the sign of the leading coefficient so that p and -p yield the same atom
+    lc = num.LC
+    if lc < 0:
+        num = -num
+        op = flip[op]
+    return ops[op](poly_to_z3(num), 0)
+
+
 # --------------------------------------------------------------------------------------------
 # engine
 
 
 class Engine:
-    def __init__(self, prefix, pending, unknowns, branch_timeout_ms):
+    def __init__(self, prefix, pending, unknowns, branch_timeout_ms, prefix_model=None):
+        self.prefix_model = prefix_model
         self.pc = []
         self.trace = []
         self.prefix = prefix
@@ -145,6 +285,10 @@ class Engine:
         self.nbase = 0
         self.model = None
         self.max_decisions = 4000
+        self.tolerance_hits = 0
+        self.deadline = None
+        self.unknown_obligations = 0
+        self.max_unknown_obligations = 3
         self.dcache = {}
 
     def _sync_base(self):
@@ -156,6 +300,15 @@ class Engine:
 
     def witness(self):
         self._sync_base()
+        if self.model is None and not self.pc:
+            # prefer a generic point over z3's (typically degenerate, all-equal) model of the base constraints
+            names = CTX.names + CTX.pool[: CTX.pool_used]
+            for scale in (Fraction(1, 4), Fraction(1, 8), Fraction(1, 2), Fraction(1, 16), Fraction(1), Fraction(3)):
+                cand = {n: scale * Fraction(17 + (7 * i) % 23, 32) for i, n in enumerate(names)}
+                dm = DictModel(cand)
+                if all(z3.is_true(dm.eval(c)) for c in CTX.base):
+                    self.model = dm
+                    break
         if self.model is None:
             self.solver.push()
             self.solver.add(*self.pc)
@@ -171,6 +324,11 @@ class Engine:
     def _check(self, extra, timeout_ms):
         self._sync_base()
         t0 = time.time()
+        if self.deadline is not None:
+            left = self.deadline - t0
+            if left <= 0.2:
+                return "unknown", None
+            timeout_ms = int(min(timeout_ms, left * 1000))
         self.solver.push()
         self.solver.add(*self.pc)
         self.solver.add(*extra)
@@ -201,6 +359,8 @@ class Engine:
             self.trace.append(d)
             self.pc.append(expr if d else z3.Not(expr))
             self.model = None
+            if i == len(self.prefix) - 1 and self.prefix_model is not None and self.nbase == len(CTX.base):
+                self.model = self.prefix_model  # found when this prefix was queued: a witness of base+pc
             return d
         ev = self.witness().eval(expr, model_completion=True)
         if not (z3.is_true(ev) or z3.is_false(ev)):
@@ -224,14 +384,42 @@ class Engine:
         other = z3.Not(expr) if w else expr
         r, m = self._check([other], self.branch_timeout_ms)
         if r == "unknown":
+            m = self._try_candidates(other)
+            if m is not None:
+                r = "sat"
+                self.stats["candidate_models"] = self.stats.get("candidate_models", 0) + 1
+        if r == "unknown":
             self.stats["unknown_branches"] += 1
             self.unknowns.append((self.trace + [not w], "branch-unknown"))
         elif r == "sat":
-            self.pending.append(self.trace + [not w])
+            self.pending.append((self.trace + [not w], m))
         self.trace.append(w)
         self.pc.append(expr if w else z3.Not(expr))
         self.dcache[cid] = (expr, w)
         return w
+
+    def _try_candidates(self, extra, perturb_only=False):
+        """z3 said unknown: try a few explicit assignments (scaled witness, constant vectors); a candidate counts
+        only if every constraint of base + pc + extra evaluates to true exactly."""
+        try:
+            basev = model_values(self.witness(), CTX.names)
+        except HarnessError:
+            return None
+        cons = [extra] + list(self.pc) + list(CTX.base)
+        for ci, cand in enumerate(_candidate_models(basev)):
+            if perturb_only and ci >= 3:
+                break
+            for n in CTX.pool[: CTX.pool_used]:
+                cand.setdefault(n, Fraction(1, 2))
+            dm = DictModel(cand)
+            ok = True
+            for c in cons:
+                if not z3.is_true(dm.eval(c)):
+                    ok = False
+                    break
+            if ok:
+                return dm
+        return None
 
     # ---- obligations
     def prove(self, claim, timeout_ms=None):
@@ -239,12 +427,57 @@ class Engine:
         claim = z3.simplify(claim)
         if z3.is_true(claim):
             return "proved", None
+        # concolic shortcut: the path's own witness is a generic point of the path condition; if the claim is false
+        # there it is a counterexample outright (exact evaluation), no search needed
+        try:
+            w = self.witness()
+            ev = w.eval(claim, model_completion=True)
+            if z3.is_false(ev):
+                self.stats["cex_by_witness"] = self.stats.get("cex_by_witness", 0) + 1
+                return "cex", w
+            # z3's witnesses are often degenerate (all symbols equal); also test generic points near it
+            m = self._try_candidates(z3.Not(claim), perturb_only=True)
+            if m is not None:
+                self.stats["cex_by_witness"] = self.stats.get("cex_by_witness", 0) + 1
+                return "cex", m
+        except HarnessError:
+            pass
+        if self.unknown_obligations >= self.max_unknown_obligations:
+            return "unknown", None
         r, m = self._check([z3.Not(claim)], timeout_ms or OBLIGATION_TIMEOUT_MS)
+        if r == "unknown":
+            self.unknown_obligations += 1
+            m = self._try_candidates(z3.Not(claim))
+            if m is not None:
+                return "cex", m
         if r == "unsat":
             return "proved", None
         if r == "sat":
             return "cex", m
         return "unknown", None
+
+
+class DictModel:
+    """A model given as an explicit rational assignment (found by the candidate heuristic, verified exactly)."""
+
+    def __init__(self, values):
+        self.values = dict(values)
+        self._subs = [(CTX.zvars[n], RV(v)) for n, v in self.values.items()]
+
+    def eval(self, expr, model_completion=True):
+        return z3.simplify(z3.substitute(expr, *self._subs))
+
+
+def _candidate_models(base_vals):
+    names = list(base_vals)
+    import random
+    rnd = random.Random(12345)
+    for _ in range(3):
+        yield {n: base_vals[n] * Fraction(rnd.randint(33, 64), 64) for n in names}
+    for sc in (Fraction(1, 100000), Fraction(1, 1000), Fraction(1000)):
+        yield {n: base_vals[n] * sc for n in names}
+    for c in (Fraction(1), Fraction(1, 2), Fraction(1, 100000), Fraction(1, 3)):
+        yield {n: c for n in names}
 
 
 class PathResult:
@@ -258,7 +491,7 @@ def explore(fn, max_paths=5000, branch_timeout_ms=None, deadline=None):
     """Run fn() once per feasible decision prefix.  fn reads the module-level ENG implicitly through SymBool.
     Returns (results, totals, unknown_branches, truncated)."""
     global ENG
-    pending = [[]]
+    pending = [([], None)]
     results = []
     unknowns = []
     tot = {}
@@ -267,8 +500,9 @@ def explore(fn, max_paths=5000, branch_timeout_ms=None, deadline=None):
         if len(results) >= max_paths or (deadline and time.time() > deadline):
             truncated = True
             break
-        pre = pending.pop()
-        ENG = Engine(pre, pending, unknowns, branch_timeout_ms or BRANCH_TIMEOUT_MS)
+        pre, pm = pending.pop()
+        ENG = Engine(pre, pending, unknowns, branch_timeout_ms or BRANCH_TIMEOUT_MS, pm)
+        ENG.deadline = deadline + 5 if deadline else None
         err = None
         out = None
         try:
@@ -387,15 +621,17 @@ class SymReal:
     def sign_pos(self):
         if self.q in CTX.known_pos:
             self.pos = True
-        return self.pos or bool(SymBool(self.e > 0))
+        if self.pos:
+            return True
+        r = cmp_zero(self.q, "gt")
+        return r if isinstance(r, bool) else bool(SymBool(r))
 
     def iszero(self):
         if self.q == 0:
             return True
         if self.pos:
             return False
-        if self.q in CTX.known_pos:
-            self.pos = True
+        if self.q in CTX.known_pos or poly_sign(self.q.numer) is not None:
             return False
         return bool(SymBool(self.num_e == 0))
 
@@ -489,27 +725,28 @@ class SymReal:
             return SymReal.lift(1) / SymReal(self.q ** (-k), self.pos)
         return NotImplemented
 
-    def _cmp(self, o, f, special):
+    def _cmp(self, o, op, special):
         o2 = SymReal.lift(o)
         if o2 is NotImplemented:
             return o2
         if o2 is None:
             return special(float(o))
-        if self.is_const() and o2.is_const():
-            return f(self.const(), o2.const())
-        return SymBool(f(self.e, o2.e))
+        r = cmp_zero(self.q - o2.q, op)
+        if isinstance(r, bool):
+            return r
+        return SymBool(r)
 
     def __lt__(self, o):
-        return self._cmp(o, lambda a, b: a < b, lambda s: s == float("inf"))
+        return self._cmp(o, "lt", lambda s: s == float("inf"))
 
     def __le__(self, o):
-        return self._cmp(o, lambda a, b: a <= b, lambda s: s == float("inf"))
+        return self._cmp(o, "le", lambda s: s == float("inf"))
 
     def __gt__(self, o):
-        return self._cmp(o, lambda a, b: a > b, lambda s: s == float("-inf"))
+        return self._cmp(o, "gt", lambda s: s == float("-inf"))
 
     def __ge__(self, o):
-        return self._cmp(o, lambda a, b: a >= b, lambda s: s == float("-inf"))
+        return self._cmp(o, "ge", lambda s: s == float("-inf"))
 
     def __eq__(self, o):
         o2 = SymReal.lift(o)
@@ -517,9 +754,10 @@ class SymReal:
             return False
         if self.q == o2.q:
             return True
-        if self.is_const() and o2.is_const():
-            return False
-        return SymBool(self.e == o2.e)
+        r = cmp_zero(self.q - o2.q, "eq")
+        if isinstance(r, bool):
+            return r
+        return SymBool(r)
 
     def __ne__(self, o):
         r = self.__eq__(o)
@@ -528,12 +766,19 @@ class SymReal:
     def __hash__(self):
         return hash(self.q)
 
+    def __deepcopy__(self, memo):
+        return self  # immutable
+
+    def __copy__(self):
+        return self
+
     def __abs__(self):
         if self.pos:
             return self
-        if self.is_const():
-            return self if self.const() >= 0 else -self
-        return self if bool(SymBool(self.e >= 0)) else -self
+        r = cmp_zero(self.q, "ge")
+        if isinstance(r, bool):
+            return self if r else -self
+        return self if bool(SymBool(r)) else -self
 
     def __bool__(self):
         return not self.iszero()
@@ -626,6 +871,8 @@ def sym_prod(xs):
 def model_values(model, names=None):
     """Rational (or 30-digit approximated algebraic) values of the context's symbols in a z3 model."""
     out = {}
+    if isinstance(model, DictModel):
+        return {n: model.values.get(n, Fraction(0)) for n in (names if names is not None else CTX.names + CTX.pool[: CTX.pool_used])}
     for n in (names if names is not None else CTX.names + CTX.pool[: CTX.pool_used]):
         v = model.eval(CTX.zvars[n], model_completion=True)
         out[n] = z3val_to_fraction(v)
